@@ -383,7 +383,7 @@ fn feed_delta(ctx: &mut Ctx, pools: &mut Pools, ints: &[i32], origin: &str, as_b
 
 /// A valid snapshot that exercises the UUID registry at the raw level.
 fn valid_snapshot(rng: &mut Rng) -> Model {
-    let nkeys = *rng.pick(&[0usize, 1, 3, 10, 50, 300, 1024]);
+    let nkeys = if cfg!(miri) { *rng.pick(&[0usize, 1, 3, 10]) } else { *rng.pick(&[0usize, 1, 3, 10, 50, 300, 1024]) };
     let maxw = *rng.pick(&[0usize, 2, 8, 60]);
     let u = Universe::random(rng, nkeys, maxw, 0x3fff);
     let mut m = u.snapshot(rng, 80);
@@ -436,6 +436,7 @@ fn main() {
     let n = ctx.volume(8_000, 300_000, 30, 2_000);
     ctx.run_cases("snapshots", n, |ctx, _i, rng| {
         let (ints, origin): (Vec<i32>, &str) = match rng.below(11) {
+            10 if cfg!(miri) => (vec![0, 0], "valid"),
             0 => {
                 let l = rng.range(0, 40) as usize;
                 ((0..l).map(|_| rng.edgy_i32()).collect(), "random-words")
@@ -444,7 +445,7 @@ fn main() {
                 let m = valid_snapshot(rng);
                 (snap_ints(&m), "valid")
             }
-            10 => {
+            10 if !cfg!(miri) => {
                 // snapshots sized exactly around the 64 KiB / 1024-item limits
                 let mut m = Model::new();
                 if rng.bool() {
